@@ -419,7 +419,8 @@ def filters_scenario(ctx):
     from sc3.base import responders as rpd, netaddr as nad, main as _m
     main = _m.main
     my_port = main._osc_interface.port
-    fk = ctx.choose('filter', 5)           # 0 none, 1 src (host+port), 2 recv_port, 3 both, 4 src without port
+    fk = ctx.choose('filter', 6)           # 0 none, 1 src (host+port), 2 recv_port, 3 both, 4 src without port,
+    #                                        5 src without port + recv_port
     sk = ctx.choose('sender', 3)           # 0 (h1, p1), 1 (h2, p1) same port other host, 2 (h1, p2) other port
     rk = ctx.choose('recvport', 2)         # 0 the library's port, 1 another one
     matching = bool(ctx.choose('matching', 2))
@@ -434,9 +435,9 @@ def filters_scenario(ctx):
     kw = {}
     if fk in (1, 3):
         kw['src_id'] = src
-    if fk == 4:
+    if fk in (4, 5):
         kw['src_id'] = src_np
-    if fk in (2, 3):
+    if fk in (2, 3, 5):
         kw['recv_port'] = my_port
     ctor = rpd.OscFunc.matching if matching else rpd.OscFunc
     obj = ctor(lambda msg, time, addr, port: fired.append((list(msg), addr, port)), '/x', **kw)
@@ -448,9 +449,9 @@ def filters_scenario(ctx):
     want = True
     if fk in (1, 3) and sk != 0:
         want = False
-    if fk == 4 and sk == 1:
+    if fk in (4, 5) and sk == 1:
         want = False          # host differs; a source without port accepts any port of that host
-    if fk in (2, 3) and rk != 0:
+    if fk in (2, 3, 5) and rk != 0:
         want = False
     if bool(fired) != want or len(fired) > 1:
         raise Violation(f'responder with filters {sorted(kw)} (src {kw.get("src_id")}, recv_port {kw.get("recv_port")}) '
